@@ -68,11 +68,9 @@ func (w *envelopeWriter) Marshal(message any) *Error {
 	if err != nil {
 		return errorf(CodeInternal, "marshal message: %w", err)
 	}
-	// We can't avoid allocating the byte slice, so we may as well reuse it once
-	// we're done with it.
-	buffer := bytes.NewBuffer(raw)
-	defer w.bufferPool.Put(buffer)
-	envelope := &envelope{Data: buffer}
+	// The slice belongs to the codec, which may have handed us memory it (or
+	// the message) still owns: it must not end up in the buffer pool.
+	envelope := &envelope{Data: bytes.NewBuffer(raw)}
 	return w.Write(envelope)
 }
 
